@@ -299,3 +299,48 @@ pub proof fn lemma_ck_fold_none(ps: Seq<Seq<char>>, k: int)
         lemma_ck_fold_none(ps, k + 1);
     } else { assert(ps.take(k) == ps); }
 }
+
+/// the typed -> text conversion as a partial function of the entries (C04, C12)
+pub open spec fn ck_text(m: Map<Seq<char>, Seq<char>>) -> Option<Seq<char>> { if all_values_hex(m) { Some(canon_text(m)) } else { None } }
+pub open spec fn checksum_key() -> Seq<char> { seq!['c', 'h', 'e', 'c', 'k', 's', 'u', 'm'] }
+
+/// a checksum parsed from any text has at least one entry, and the text form of a non-empty entry set is non-empty
+pub proof fn lemma_ck_fold_nonempty(ps: Seq<Seq<char>>)
+    requires ps.len() > 0, ck_fold(ps) is Some
+    ensures exists|k: Seq<char>| (#[trigger] ck_fold(ps)->Some_0.contains_key(k))
+{
+    let p = ps.last();
+    let i = last_index_of(p, ':');
+    let m = ck_fold(ps.drop_last())->Some_0;
+    let k = lower_seq(p.subrange(0, i));
+    assert(ck_fold(ps)->Some_0 == m.insert(k, p.subrange(i + 1, p.len() as int)));
+    assert(ck_fold(ps)->Some_0.contains_key(k));
+}
+pub proof fn lemma_split_nonempty(s: Seq<char>, c: char)
+    ensures split_spec(s, c).len() > 0
+    decreases s.len()
+{
+    if !(first_index_of(s, c) < 0 || first_index_of(s, c) >= s.len()) { }
+}
+pub proof fn lemma_listing_text_nonempty(es: VS)
+    requires es.len() > 0
+    ensures listing_text(es).len() > 0
+    decreases es.len()
+{
+    if es.len() == 1 { assert(entry_text(es[0].0, es[0].1).len() >= 1); }
+    else { assert(listing_text(es).len() >= 1); }
+}
+pub proof fn lemma_ck_parse_nonempty(text: Seq<char>)
+    requires ck_parse(text) is Some
+    ensures exists|k: Seq<char>| (#[trigger] ck_parse(text)->Some_0.contains_key(k))
+{
+    lemma_split_nonempty(text, ',');
+    lemma_ck_fold_nonempty(split_spec(text, ','));
+}
+pub proof fn lemma_listing_covers(es: VS, m: Map<Seq<char>, Seq<char>>, k: Seq<char>)
+    requires is_listing(es, m), m.contains_key(k)
+    ensures es.len() > 0
+{
+    reveal(is_listing);
+    let i = choose|i: int| 0 <= i < es.len() && #[trigger] es[i].0 == k;
+}
